@@ -51,6 +51,7 @@ type FnCtx struct {
 	compRange map[string][2]string
 	specRecursive map[string]bool
 	named map[string]string
+	frameMode bool
 	unfoldDepth int
 	modCache map[*ssa.Function]modResult
 	noDefine int
